@@ -1,0 +1,29 @@
+//go:build verif
+
+// Contracts for package summary, read by the verification-condition generator in /verif/govc.
+// This file contains comments only; it is compiled only with -tags verif and adds no code.
+
+package summary
+
+/*@
+// The summary renders the same reportItem as the register (GetReportItem, C02 / C07) through its own template.
+func NewSummaryReporterTemplate returns (r)
+  props C17 C08 C07
+  modifies ghost(bufSink, bufSticky)
+  ensures @fresh r != nil && fresh(r) && r.output != nil && fresh(r.output) && r.template != nil && r.db == db && r.config == config
+  ensures @sink [C17] bufSink == store(old(bufSink), r.output, payload(config.Output)) && bufSticky == store(old(bufSticky), r.output, false)
+
+func (*SummaryReporterTemplate).Process returns (err)
+  props C17 C08 C07
+  requires @args r != nil && ln != nil && r.output != nil && r.template != nil && DBIs(r.db)
+  modifies ghost(accKey, accP, accN, accH, bufSticky, sinkFailed, sinkPend)
+  ensures @sink [C17] BufStep(r.output)
+  ensures @reports-loss [C17] err == nil ==> bufSticky[r.output] == old(bufSticky[r.output])
+
+func (*SummaryReporterTemplate).Flush returns (err)
+  props C17 C08
+  requires @args r != nil && r.output != nil
+  modifies ghost(bufSticky, sinkFailed, sinkPend)
+  ensures @sink [C17] BufStep(r.output)
+  ensures @reports-loss [C17] (err != nil) == bufSticky[r.output] && (err == nil ==> sinkPend[bufSink[r.output]] == 0)
+@*/
